@@ -70,6 +70,10 @@ class ClassRoot(KDDataset):
         return (self.C,)
 
 
+class ClassRootNoBulk(ClassRoot):
+    getall_class = property(lambda self: (_ for _ in ()).throw(AttributeError("getall_class")))
+
+
 def _build(kind, root, args):
     import kappadata.wrappers as W
     from kappadata.wrappers.dataset_wrappers.classwise_subset_wrapper import ClasswiseSubsetWrapper
@@ -115,11 +119,20 @@ def selection(kind, spec, args, g=0):
         root = ClassRoot(root_classes, spec["C"], spec.get("bulk", "list"), spec.get("native_items", False), spec.get("name_mod"))
         base = KDSubset(KDSubset(root, list(range(n))[::-1]), [n - 1 - r for r in perm])  # two layers composing to perm
         inv = {r: pos for pos, r in enumerate(perm)}
+    elif spec.get("under") is not None:
+        # an empty view (list of indices) of a root that is not empty
+        from kappadata.datasets import KDSubset
+        root = ClassRoot([0, spec["C"] - 1, 0], spec["C"], spec.get("bulk", "list"), spec.get("native_items", False), spec.get("name_mod"))
+        base = KDSubset(root, [])
+        inv = {}
     else:
         root = ClassRoot(spec["classes"], spec["C"], spec.get("bulk", "list"), spec.get("native_items", False), spec.get("name_mod"))
         base = root
         inv = None
     root.binary_shape = bool(spec.get("binary_shape"))
+    if spec.get("no_bulk"):
+        # a dataset that answers per-sample label requests only (no getall_class)
+        root.__class__ = ClassRootNoBulk
     import copy as _copy
     if spec.get("prior") and base is not root:
         # the same wrapper was built over the root object before (another split of the same data): nothing it learned about the root may
@@ -550,5 +563,5 @@ FACETS = [
     F("repeat", check_repeat, S_REPEAT),
     F("oversampling", check_oversampling, S_OVERSAMPLING),
     F("fewshot", check_fewshot, S_FEWSHOT),
-    F("classwise-subset", check_classwise_subset, S_CLASSWISE),
+    F("classwise-subset", check_classwise_subset, st.tuples(S_CLASSWISE, st.booleans()).map(lambda t: dict(t[0], no_bulk=t[1]))),
 ]
